@@ -3,6 +3,7 @@ import PlasVerif.Proofs.ClassCache
 import PlasVerif.Proofs.GlobalStateSim
 import PlasVerif.Proofs.EnableBalanceTable
 import PlasVerif.Proofs.Holders
+import PlasVerif.Proofs.FileLookup
 /-!
 # C17 — A document's result does not depend on what was processed before it
 
@@ -265,6 +266,49 @@ theorem shared_default_leaks :
     .step (a := 1) (.root (by simp)) (by simp [sharedDefault]), by simp [write, sharedDefault]⟩
 
 end HoldersSec
+
+/-! ### file lookup (`TeX.kpsewhich`): the `TEXINPUTS` juggling and what a lookup may depend on -/
+section FileLookupSec
+open PlasVerif.Model.FileLookup PlasVerif.Proofs.FileLookup
+
+/-- **`TEXINPUTS` is restored by every lookup** — found, not found (the exception path) or absolute name — whatever
+    the files, the search list and the directory of the file being read. -/
+theorem kpsewhich_restores_texinputs (fs : FS) (ti : List Nat) (r : Req) : (kpsewhich fs ti r).2 = ti := by
+  unfold kpsewhich; split <;> rfl
+
+/-- **A lookup is decided by the request alone**: the directory of the file being read comes first, then the entries
+    of `TEXINPUTS` in order, then the working directory; so the same request in a later document finds the same file. -/
+theorem kpsewhich_search_order (fs : FS) (ti : List Nat) (name : Nat) (s : Nat) :
+    find fs ti ⟨name, false, some s⟩ =
+      (if fs.contains (s, name) then Res.found s else search fs name (if ti.isEmpty then [0] else ti ++ [0])) := by
+  simp only [find, kpsewhich, during, Bool.false_eq_true, if_false]
+  by_cases h : ti.isEmpty = true <;> simp [h, search]
+
+example : find [(1, 7), (2, 7), (0, 9)] [] ⟨7, false, some 2⟩ = .found 2 ∧
+    find [(1, 7), (2, 7), (0, 9)] [1] ⟨9, false, some 2⟩ = .found 0 ∧
+    find [(1, 7)] [1] ⟨8, false, some 2⟩ = .notFound := by decide
+
+/-- **A memo table in front of the lookup is transparent exactly when its key determines the lookup**: then, for every
+    sequence of requests (of any documents, in any order) it answers what the uncached lookup answers. -/
+theorem lookup_memo_transparent {κ} [BEq κ] [LawfulBEq κ] (key : Req → List Nat → κ) (fs : FS)
+    (hd : Determines key fs) (reqs : List (List Nat × Req)) :
+    memoRun key fs [] reqs = reqs.map (fun q => find fs q.1 q.2) :=
+  memoRun_eq key fs hd reqs [] (fun _ _ _ h => by simp [List.lookup] at h)
+
+/-- non-vacuity: the full key (request and search list) determines the lookup -/
+example (fs : FS) : Determines (fun r ti => (r, ti)) fs := by
+  intro r r' ti ti' h
+  simp only [Prod.mk.injEq] at h
+  rw [h.1, h.2]
+
+/-- a table keyed by the name and `TEXINPUTS` only (not by the directory of the file being read) is NOT transparent:
+    two projects each with their own file 7, the second one gets the first one's — kernel-checked -/
+theorem lookup_memo_by_name_leaks :
+    memoRun (fun r ti => (r.name, ti)) [(1, 7), (2, 7)] [] [([], ⟨7, false, some 1⟩), ([], ⟨7, false, some 2⟩)] ≠
+      [([], ⟨7, false, some 1⟩), ([], (⟨7, false, some 2⟩ : Req))].map (fun q => find [(1, 7), (2, 7)] q.1 q.2) := by
+  decide
+
+end FileLookupSec
 
 /-! ### the per-class caches `'@locals'` and `'@arguments'` are transparent
 
